@@ -5,3 +5,7 @@ cd "$(dirname "$0")"
 export PATH=/opt/veriftools/go1.26.8/bin:$PATH GOFLAGS=-mod=vendor GOPROXY=off GOSUMDB=off GOTOOLCHAIN=local
 mkdir -p bin evidence replays
 (cd engine && go build -o ../bin/govc .)
+# the composition lemma of C01 (Lean 4 + Mathlib): checked once here; ./check C01 re-checks it when the file changed
+if command -v lean >/dev/null 2>&1; then
+  out=$(cd lean && timeout 1500 lean Agreement.lean 2>&1) && ! echo "$out" | grep -q "sorryAx\|error" && { sha256sum lean/Agreement.lean | cut -d' ' -f1 > lean/Agreement.ok; echo "$out" > lean/Agreement.out; } || echo "WARNING: lean/Agreement.lean did not check: $out"
+fi
